@@ -147,13 +147,7 @@ func rep(k ontsynth.EntryKind, n int) []ontsynth.EntryKind {
 	return out
 }
 
-func violationKeyOnt(kinds []ontsynth.EntryKind, nKeys, nSigs int) string {
-	if nSigs < nKeys {
-		return "ont:crosschainmsg-unsigned-bookkeeper-counted"
-	}
-	if nSigs > nKeys {
-		return "ont:crosschainmsg-surplus-signature-counted"
-	}
+func violationKeyOnt(kinds []ontsynth.EntryKind, reshaped bool, nKeys, nSigs int) string {
 	has := map[ontsynth.EntryKind]bool{}
 	for _, k := range kinds {
 		has[k] = true
@@ -161,6 +155,10 @@ func violationKeyOnt(kinds []ontsynth.EntryKind, nKeys, nSigs int) string {
 	switch {
 	case has[ontsynth.DupSameSig] || has[ontsynth.DupFreshSig]:
 		return "ont:crosschainmsg-duplicate-signer-counted"
+	case reshaped && nSigs < nKeys:
+		return "ont:crosschainmsg-unsigned-bookkeeper-counted"
+	case reshaped && nSigs > nKeys:
+		return "ont:crosschainmsg-surplus-signature-counted"
 	case has[ontsynth.Foreign]:
 		return "ont:crosschainmsg-foreign-signer-counted"
 	case has[ontsynth.BadSig] || has[ontsynth.StolenSig]:
@@ -335,7 +333,7 @@ func ontRound(t *testing.T, r *kit.Run, n int, cases int, thresholds map[int]int
 		if acc {
 			r.Count("ont_accepted", 1)
 			if distinct < T {
-				viol(r, violationKeyOnt(c.kinds, replay["n_bookkeepers"].(int), replay["n_signatures"].(int)),
+				viol(r, violationKeyOnt(c.kinds, c.reshape, replay["n_bookkeepers"].(int), replay["n_signatures"].(int)),
 					fmt.Sprintf("ont message accepted via %s with %d listed bookkeeper(s) but only %d distinct tracked valid signer(s); tracked set N=%d needs %d (honest all-distinct threshold)", c.via, listed, distinct, n, T), replay)
 			} else if shape == "honest-quorum-variants" && r.Get("ont_sampled") == 0 {
 				r.Count("ont_sampled", 1)
